@@ -196,11 +196,16 @@ def run(ctx):
     if not ctx.quick and ctx.worker < 4:
         how = hows[ctx.worker % 4]
         body = (bytes(16 * 1024 * 1024 + 5) if how else rng.randbytes(0x1000000 + rng.randint(0, 3)))
-        enc, _ = refchunk.encode([b"ab", body, b"yz"], False, True, how, 0)
-        step = 1 << 20
-        cuts = tuple(range(step, len(enc), step))
-        if not run_case(ctx, [b"ab", body, b"yz"], False, True, how, 0, cuts, 65536, 9):
-            return
+        refchunk.FORCE = (9, 15)  # best compression, full window: ratios beyond 1000:1
+        try:
+            bodies_ = [b"ab", body, b"yz"] if how is None else [body]
+            enc, _ = refchunk.encode(bodies_, False, True, how, 0)
+            step = 1 << 20
+            cuts = tuple(range(step, len(enc), step)) or (len(enc) // 2,)
+            if not run_case(ctx, bodies_, False, True, how, 0, cuts, 65536, 9):
+                return
+        finally:
+            refchunk.FORCE = None
         ctx.hit("chunks_of_16MiB")
     # (3) random partitions, byte-at-a-time, tiny bufsize, bigger bodies
     for it in range(ctx.n(40000, 400000)):
